@@ -52,6 +52,9 @@ RtVariants(c) ==
     \* every attribute in another lexical form of the same value (boolean 1, integer 007, dateTime with fraction ...):
     \* what was written is what is read, the classes do not normalise
     \cup {[cls |-> c, kind |-> "allattrs_altlex", which |-> "", n |-> Len(Attrs(c))]}
+    \* every attribute of a string-like type with blanks, XML-special and non-ASCII characters in its value (anyURI is not
+    \* percent-encoded behind the application's back, strings are not trimmed)
+    \cup {[cls |-> c, kind |-> "allattrs_special", which |-> "", n |-> Len(Attrs(c))]}
     \* every optional attribute present with the empty string as value (present-but-empty is not absent)
     \cup {[cls |-> c, kind |-> "optattrs_empty", which |-> "", n |-> Len(Attrs(c))]}
     \cup {[cls |-> c, kind |-> "child", which |-> Children(c)[k].member, n |-> n] :
